@@ -86,17 +86,21 @@ class Engine:
         if not st.pc:
             return True
         defining = getattr(self, "defining", None)
-        if defining and any(self._mentions(c, defining) for c in st.pc):
-            # z3 gives an *undefined* recursive function a default interpretation: pruning on
-            # conditions that mention a spec function still being defined would be unsound
-            return True
+        pcs = st.pc
+        if defining:
+            # z3 gives an *undefined* recursive function a default interpretation: conditions that
+            # mention a spec function still being defined are left out of the pruning query
+            # (dropping conjuncts only weakens it, so 'unsat' stays a sound reason to prune)
+            pcs = [c for c in st.pc if not self._mentions(c, defining)]
+            if not pcs:
+                return True
         last = st.pc[-1]
         if z3.is_false(simp(last)):
             self.stats["pruned"] += 1
             return False
         s = z3.Solver()
         s.set("timeout", 150)
-        s.add(*st.pc)
+        s.add(*pcs)
         r = s.check()
         if r == z3.unsat:
             self.stats["pruned"] += 1
@@ -297,8 +301,13 @@ class Engine:
 
     def import_const(self, obj, name):
         """Real module-level object -> value (constants, tables, functions, classes)."""
+        import enum
         import types
 
+        if isinstance(obj, enum.Enum) and isinstance(obj, str):
+            v = StrV(str(obj.value))
+            v.pyobj = obj
+            return v
         if isinstance(obj, (bool, int, str, float, tuple)) or obj is None:
             try:
                 return const_to_v(obj)
